@@ -65,6 +65,10 @@ struct Slots
    bool                              b[NS] = { false, false, true, true };
    int                               i[NS] = { 0, 0, 0, 0 };
    unsigned                          u[NS] = { 0, 0, 0, 0 };
+   unsigned long                     ul[NS] = { 0, 0, 0, 0 };   // the wide and the narrow integer types
+   long long                         ll[NS] = { 0, 0, 0, 0 };
+   unsigned short                    uh[NS] = { 0, 0, 0, 0 };
+   short                             h[NS] = { 0, 0, 0, 0 };
    double                            d[NS] = { 0, 0, 0, 0 };
    std::string                       s[NS];
    std::optional<int>                oi[NS];
@@ -150,6 +154,10 @@ void initSlot(Slots& S, const std::string& slot, const std::vector<std::string>&
    if (k == "b") S.b[n] = init.at(0) == "1";
    else if (k == "i") S.i[n] = std::stoi(init.at(0));
    else if (k == "u") S.u[n] = static_cast<unsigned>(std::stoul(init.at(0)));
+   else if (k == "ul") S.ul[n] = std::stoul(init.at(0));
+   else if (k == "ll") S.ll[n] = std::stoll(init.at(0));
+   else if (k == "uh") S.uh[n] = static_cast<unsigned short>(std::stoul(init.at(0)));
+   else if (k == "h") S.h[n] = static_cast<short>(std::stoi(init.at(0)));
    else if (k == "d") S.d[n] = std::stod(init.at(0));
    else if (k == "s") S.s[n] = vf::unhexs(init.at(0));
    else if (k == "oi") S.oi[n] = std::stoi(init.at(0));
@@ -181,6 +189,10 @@ TypedArgBase* bindSlot(Slots& S, const std::string& slot)
    if (k == "b") return pa::destination(S.b[n], slot);
    if (k == "i") return pa::destination(S.i[n], slot);
    if (k == "u") return pa::destination(S.u[n], slot);
+   if (k == "ul") return pa::destination(S.ul[n], slot);
+   if (k == "ll") return pa::destination(S.ll[n], slot);
+   if (k == "uh") return pa::destination(S.uh[n], slot);
+   if (k == "h") return pa::destination(S.h[n], slot);
    if (k == "d") return pa::destination(S.d[n], slot);
    if (k == "s") return pa::destination(S.s[n], slot);
    if (k == "oi") return pa::destination(S.oi[n], slot);
@@ -217,6 +229,10 @@ std::string dumpSlot(Slots& S, const std::string& slot)
    if (k == "b") return S.b[n] ? "1" : "0";
    if (k == "i") return std::to_string(S.i[n]);
    if (k == "u") return std::to_string(S.u[n]);
+   if (k == "ul") return std::to_string(S.ul[n]);
+   if (k == "ll") return std::to_string(S.ll[n]);
+   if (k == "uh") return std::to_string(S.uh[n]);
+   if (k == "h") return std::to_string(S.h[n]);
    if (k == "d") { std::snprintf(buf, sizeof buf, "%a", S.d[n]); return buf; }
    if (k == "s") return "s" + vf::hex(S.s[n]);
    if (k == "oi") return S.oi[n] ? std::to_string(*S.oi[n]) : "none";
@@ -322,7 +338,7 @@ const char* excClass(const std::exception& e)
    return "other";
 }
 
-struct Member { std::string name; int flags; std::vector<std::string> args; std::vector<std::string> cons; std::string subkey; };
+struct Member { std::string name; int flags; std::vector<std::string> args; std::vector<std::string> cons; std::string subkey; std::string subopts; };
 
 // "split:<hex>" : appl::make_arg_array on the string, both constructors
 std::string run_split(const std::string& text)
@@ -350,6 +366,7 @@ std::string run_case(const std::vector<std::string>& w)
    std::string prog = "prog", fileContent, envContent, line;
    bool haveFile = false, haveEnv = false, haveLine = false, wantOut = false;
    std::vector<int> defOrder;
+   std::vector<std::string> lateArgs;
    int groupFlags = -1;
    std::vector<std::pair<std::string, std::string>> xfiles;
    std::vector<std::string> xdirs;
@@ -360,10 +377,10 @@ std::string run_case(const std::vector<std::string>& w)
       if (tok.rfind("H:f=", 0) == 0) members.push_back({ "", std::stoi(tok.substr(4)), {}, {} });
       else if (tok.rfind("S:", 0) == 0)
       {
-         // S:<keyspec>:f=<flags> : a sub-group handler, attached to the first handler under <keyspec>; the
-         // following arg: / con: tokens belong to it
+         // S:<keyspec>:f=<flags>[:<opts>] : a sub-group handler, attached to the first handler under <keyspec>; the
+         // following arg: / con: tokens belong to it; <opts> (man, card=...) are set on the sub-group argument
          auto p = vf::split(tok, ':');
-         members.push_back({ "", std::stoi(p.at(2).substr(2)), {}, {}, p.at(1) });
+         members.push_back({ "", std::stoi(p.at(2).substr(2)), {}, {}, p.at(1), p.size() > 3 ? p.at(3) : std::string() });
       }
       else if (tok.rfind("GS:f=", 0) == 0) groupFlags = std::stoi(tok.substr(5));   // flags of the Groups singleton
       else if (tok.rfind("G:", 0) == 0)
@@ -373,6 +390,7 @@ std::string run_case(const std::vector<std::string>& w)
          members.push_back({ p.at(1), std::stoi(p.at(2).substr(2)), {}, {} });
       }
       else if (tok.rfind("arg:", 0) == 0 || tok.rfind("probe:", 0) == 0) members.back().args.push_back(tok);
+      else if (tok.rfind("late:arg:", 0) == 0) lateArgs.push_back(tok.substr(5));   // defined on the owner after the sub-groups
       else if (tok.rfind("con:", 0) == 0) members.back().cons.push_back(tok);
       else if (tok.rfind("prog:", 0) == 0) prog = vf::unhexs(tok.substr(5));
       else if (tok.rfind("file:", 0) == 0) { haveFile = true; fileContent = vf::unhexs(tok.substr(5)); }
@@ -531,10 +549,13 @@ std::string run_case(const std::vector<std::string>& w)
                // the owner of a sub-group: the single handler, or in a group the member defined last before it
                pa::Handler* owner = useGroups ? lastMember : single;
                if (owner == nullptr) throw std::invalid_argument("sub-group without main handler");
-               owner->addArgument(m.subkey, *hs.back(), "sub-group " + m.subkey);
+               TypedArgBase* sga = owner->addArgument(m.subkey, *hs.back(), "sub-group " + m.subkey);
+               for (auto& o : vf::split(m.subopts, '/')) if (!o.empty()) applyOption(sga, "sub0", o);
             } else
                lastMember = hs.back();
          }
+         // arguments of the owner that are defined after its sub-group arguments
+         for (auto& a : lateArgs) define(useGroups ? lastMember : single, a);
       } else
       {
          for (auto& m : members) create(m);
